@@ -53,6 +53,8 @@ def do_run(step, state, want_trace, want_snap, live, opts=None, invoke=None):
     opts_before = copy.deepcopy(opts)
     countries = list(step["countries"])
     clist_fp = T.fingerprint(countries)
+    if step.get("runner") and invoke is None and step["runner"] not in T.EXTRA_ROOTS:
+        T.EXTRA_ROOTS[step["runner"]] = ScenarioRunnerNoTrade()
     before = T.snapshot() if want_snap else None
     state["first"] = True
     state["tags"] = {}
@@ -64,7 +66,14 @@ def do_run(step, state, want_trace, want_snap, live, opts=None, invoke=None):
             if invoke is not None:
                 r = invoke()
             else:
-                r = ScenarioRunnerNoTrade().run_model_no_trade(
+                if step.get("runner"):
+                    # ONE runner object reused by every step of the history that names it (instance state is shared state)
+                    if step["runner"] not in T.EXTRA_ROOTS:
+                        T.EXTRA_ROOTS[step["runner"]] = ScenarioRunnerNoTrade()
+                    runner = T.EXTRA_ROOTS[step["runner"]]
+                else:
+                    runner = ScenarioRunnerNoTrade()
+                r = runner.run_model_no_trade(
                     title="c14", create_pptx_with_all_countries=False, show_country_figures=False,
                     show_map_figures=False, add_map_slide_to_pptx=False, scenario_option=opts, countries_list=countries,
                     return_results=True)
